@@ -278,24 +278,47 @@ def _rng(repo, col):
         raise AnalysisError("no random-number call found at all (connect.py changed?)")
 
 
-def _scan(repo, col):
-    R = "R-C06-scan"
+def _scan(repo, col, R="R-C06-scan"):
     fi = repo.func(JU, "nested_checkpoint_scan")
     ex = idx.expander(repo, fi)
-    nr = ex.nested.get("nested_reshape")
+    # the function mapped over the inputs (whatever it is called): reshape to (*nested_lengths, *x.shape[1:]) in C order
+    rr0 = ex.returns[0] if ex.returns else None
+    tm = T.find(rr0, lambda x: x.op == "mcall" and x.name == "tree_map") if rr0 is not None else None
+    nr = ex.nested.get(tm.args[1].name) if tm is not None and len(tm.args) > 1 and tm.args[1].op == "localfn" else None
     if nr is None:
-        raise AnalysisError("nested_reshape vanished")
+        raise AnalysisError("nested_checkpoint_scan: the reshaping function mapped over the inputs was not found")
     r = nr.returns[0] if nr.returns else None
-    ok = False
+    ok, known_shape = False, False
+
+    def segments(shp):
+        """shape expression as a list of segments: tuple(A) + B  ==  (*A, *B)"""
+        if shp.op == "binop" and shp.name == "+":
+            return segments(shp.args[0]) + segments(shp.args[1])
+        if shp.op == "call" and shp.name in ("tuple", "list") and len(shp.args) == 1:
+            return segments(shp.args[0])
+        if shp.op in ("tuple", "list"):
+            out = []
+            for a_ in shp.args:
+                out += segments(a_.args[0]) if a_.op == "star" else [("elem", a_)]
+            return out
+        return [("seq", shp)]
     if r is not None and r.op == "mcall" and r.name == "reshape":
-        shp = r.args[1]
-        ok = shp.op == "binop" and shp.name == "+" and shp.args[0].op == "call" and shp.args[0].name == "tuple" and \
-            T.find(shp.args[0], lambda x: x.op == "param" and x.name == "nested_lengths") is not None and \
-            shp.args[1].op == "sub" and shp.args[1].args[1].op == "slice" and shp.args[1].args[1].args[0].op == "const" and \
-            shp.args[1].args[1].args[0].name == 1 and "order" not in r.kw
-    col.check(ok, R, nr.fi, "inputs reshaped to tuple(nested_lengths) + x.shape[1:] in C order",
-              "time index t <-> (i0, ..., ik) mixed radix, slowest first",
-              f"nested_reshape returns {r.short(120) if r else None}", node=nr.fi.node)
+        recv_is_lib = r.args[0].op == "free"
+        shp = r.args[2] if recv_is_lib and len(r.args) > 2 else (r.args[1] if len(r.args) > 1 else r.kw.get("shape") or r.kw.get("newshape"))
+        order = r.kw.get("order")
+        if shp is not None:
+            seg = segments(shp)
+            known_shape = True
+            ok = len(seg) == 2 and seg[0][0] == "seq" and seg[0][1].op == "param" and seg[0][1].name == "nested_lengths" and \
+                seg[1][0] == "seq" and seg[1][1].op == "sub" and seg[1][1].args[0].op == "attr" and seg[1][1].args[0].name == "shape" and \
+                seg[1][1].args[1].op == "slice" and seg[1][1].args[1].args[0].op == "const" and seg[1][1].args[1].args[0].name == 1 and \
+                seg[1][1].args[1].args[1].op == "const" and seg[1][1].args[1].args[1].name is None and \
+                (order is None or (order.op == "const" and order.name == "C"))
+    col.add(R, nr.fi, "inputs reshaped to (*nested_lengths, *x.shape[1:]) in C order",
+            "DISCHARGED" if ok else ("VIOLATED" if known_shape else "UNDECIDED"),
+            "time index t <-> (i0, ..., ik) mixed radix, slowest first" if ok else
+            f"the inputs are reshaped with {r.short(120) if r else None}: time step t must map to the mixed-radix index (i0, ..., ik), slowest "
+            f"first (C order, nested_lengths leading, the remaining axes of x unchanged)", node=nr.fi.node)
     # length guard
     g = [n for n in walk_no_nested(fi.node) if isinstance(n, ast.If) and any(isinstance(b, ast.Raise) for b in n.body)]
     ok = any("math.prod(nested_lengths)" in unparse(x.test) or "prod(nested_lengths)" in unparse(x.test) for x in g)
@@ -318,10 +341,38 @@ def _scan(repo, col):
     ok = base.op == "callv" and [a.pretty() for a in base.args] == ["scan_fn", "f", "init", "xs", "lengths[0]"]
     col.check(ok, R, inner, "innermost level: scan_fn(f, init, xs, lengths[0])", base.short(), f"base case returns {base.short()}",
               node=inner.node)
+    # the base case is taken exactly when one level is left
     bg = [n for n in walk_no_nested(inner.node) if isinstance(n, ast.If)]
-    col.check(bool(bg) and unparse(bg[0].test).replace(" ", "") == "len(lengths)==1", R, inner, "base case when one level is left",
-              "len(lengths) == 1", f"base-case test is {unparse(bg[0].test) if bg else None}", node=bg[0] if bg else inner.node)
+    verdict, shown = "UNDECIDED", None
+    if bg:
+        tt = exi.term(bg[0].test)
+        shown = unparse(bg[0].test)
+        neg = False
+        while tt.op in ("not",) or (tt.op == "unary" and tt.name == "Not"):
+            neg = not neg
+            tt = tt.args[0]
+        def levels_of(x):
+            """('all' | 'rest') if x is lengths / lengths[1:]"""
+            if x.op == "param" and x.name == "lengths":
+                return "all"
+            if x.op == "sub" and x.args[0].op == "param" and x.args[0].name == "lengths" and x.args[1].op == "slice" and \
+                    x.args[1].args[0].op == "const" and x.args[1].args[0].name == 1 and x.args[1].args[1].name is None:
+                return "rest"
+            return None
+        if tt.op == "cmp" and len(tt.args) == 2 and tt.args[0].op == "call" and tt.args[0].name == "len" and tt.args[1].op == "const" \
+                and isinstance(tt.args[1].name, int) and not neg:
+            which, c, op = levels_of(tt.args[0].args[0]), tt.args[1].name, tt.name
+            if which is not None:
+                n1 = c + (1 if which == "rest" else 0)  # in terms of len(lengths)
+                one_left = (op == "==" and n1 == 1) or (op == "<=" and n1 == 1) or (op == "<" and n1 == 2)
+                verdict = "DISCHARGED" if one_left else "VIOLATED"
+        elif neg and levels_of(tt) == "rest":
+            verdict = "DISCHARGED"
+    col.add(R, inner, "base case when exactly one level is left", verdict,
+            "len(lengths) == 1" if verdict == "DISCHARGED" else
+            f"base-case test is `{shown}`: the innermost plain scan must be used exactly when one level (lengths[0]) is left", node=bg[0] if bg else inner.node)
     ok_rec = rec.op == "tuple" and len(rec.args) == 2
+    sub_ex = None
     if ok_rec:
         carry, out = rec.args
         scan_call = carry.args[0] if carry.op == "item" else None
@@ -333,24 +384,41 @@ def _scan(repo, col):
                   f"enclosing scan continues from the wrong state", node=inner.node)
         if scan_call is not None and scan_call.op == "callv":
             a = [x.pretty() for x in scan_call.args]
-            col.check(a[1:] == ["sub_scans", "init", "xs", "lengths[0]"], R, inner, "outer scan: scan_fn(sub_scans, init, xs, lengths[0])",
+            fn_arg = scan_call.args[1] if len(scan_call.args) > 1 else None
+            wrapped = False
+            if fn_arg is not None and fn_arg.op == "callv" and fn_arg.args[0].op == "param" and fn_arg.args[0].name == "checkpoint_fn" and \
+                    len(fn_arg.args) == 2 and fn_arg.args[1].op == "localfn":
+                wrapped = True
+                fn_arg = fn_arg.args[1]
+            if fn_arg is not None and fn_arg.op == "localfn":
+                sub_ex = exi.nested.get(fn_arg.name)
+            col.check(sub_ex is not None and a[2:] == ["init", "xs", "lengths[0]"], R, inner,
+                      "outer scan: scan_fn(<block function>, init, xs, lengths[0])",
                       str(a), f"outer scan is called with {a}", node=inner.node)
+            if sub_ex is not None:
+                deco = [unparse(d) for d in sub_ex.fi.node.decorator_list]
+                col.check((deco == ["checkpoint_fn"]) != wrapped, R, sub_ex.fi, "the block function is wrapped by checkpoint_fn exactly once",
+                          "decorator or explicit checkpoint_fn(...)", f"decorators {deco}, explicit wrap {wrapped}: the blocks are "
+                          f"{'checkpointed twice' if wrapped and deco else 'not checkpointed'}", node=sub_ex.fi.node)
         ok_o = out.op == "mcall" and out.name == "tree_map" and out.args[1].pretty() in ("jnp.concatenate", "np.concatenate") and \
             out.args[2].op == "item" and out.args[2].name == 1
         col.check(ok_o, R, inner, "outputs of the blocks are concatenated along axis 0 in block order",
                   "tree_map(jnp.concatenate, out)", f"outputs are {out.short(100)}", node=inner.node)
     else:
         col.unk(R, inner, "recursive return", rec.short(), node=inner.node)
-    ss = exi.nested.get("sub_scans")
-    if ss is None:
-        raise AnalysisError("sub_scans vanished")
-    r = ss.returns[0] if ss.returns else None
-    ok = r is not None and r.op == "call" and r.name == "_inner_nested_scan" and \
-        [a.pretty() for a in r.args] == ["f", "carry", "xs", "lengths[slice(1, None, None)]", "scan_fn", "checkpoint_fn"]
-    col.check(ok, R, ss.fi, "sub_scans recurses with (f, carry, xs, lengths[1:])", "the remaining levels",
-              f"sub_scans returns {r.short(160) if r else None}", node=ss.fi.node)
-    deco = [unparse(d) for d in ss.fi.node.decorator_list]
-    col.check(deco == ["checkpoint_fn"], R, ss.fi, "sub_scans is wrapped by checkpoint_fn", str(deco), f"decorators {deco}", node=ss.fi.node)
+    if sub_ex is None:
+        if ok_rec:
+            col.unk(R, inner, "block function of the outer scan", "not a nested function", node=inner.node)
+    else:
+        r = sub_ex.returns[0] if sub_ex.returns else None
+        pp = sub_ex.fi.params
+        ok = r is not None and r.op == "call" and r.name == "_inner_nested_scan" and len(r.args) == 6 and len(pp) == 2 and \
+            r.args[0].op == "param" and r.args[0].name == "f" and \
+            r.args[1].op == "param" and r.args[1].name == pp[0] and r.args[2].op == "param" and r.args[2].name == pp[1] and \
+            r.args[3].pretty() == "lengths[slice(1, None, None)]" and r.args[4].pretty() == "scan_fn" and r.args[5].pretty() == "checkpoint_fn"
+        col.check(ok, R, sub_ex.fi, "the block function recurses with (f, ITS carry, ITS inputs, lengths[1:])", "the remaining levels",
+                  f"the block function returns {r.short(160) if r else None}: every block must continue from the carry it receives "
+                  f"(not from the closed-over initial state) over its own slice of the inputs", node=sub_ex.fi.node)
     checkpoint_padding(repo, col, R)
     ig = repo.func(IG, "integrate")
     exg = idx.expander(repo, ig)
@@ -359,8 +427,8 @@ def _scan(repo, col):
         raise AnalysisError("integrate no longer calls nested_checkpoint_scan")
     t = exg.term(call)
     kw = {k: v for k, v in t.kw.items()}
-    ok = t.args[0].op == "localfn" and t.args[0].name == "_body_fun" and "nested_lengths" in kw and "length" in kw
-    col.check(ok, R, ig, "integrate scans _body_fun with length and nested_lengths", "", f"called with {t.short(160)}", node=call)
+    ok = t.args[0].op == "localfn" and "nested_lengths" in kw and "length" in kw
+    col.check(ok, R, ig, "integrate scans its body function with length and nested_lengths", "", f"called with {t.short(160)}", node=call)
 
 
 def checkpoint_padding(repo, col, R):
